@@ -84,10 +84,13 @@ def check_lifting(ctx, R="C05.lift"):
     ctx.floor(R, n, 14, "forwarding calls in lifting helpers")
     # makeDelayedFunctionCall itself applies func to *all* evaluated args and kwargs
     f = model.func(LE, "makeDelayedFunctionCall")
-    inner = [x for x in ast.walk(f) if isinstance(x, ast.FunctionDef) and x.name == "value"]
+    inner = [x for x in ast.walk(f) if isinstance(x, ast.FunctionDef) and x is not f]
     if inner:
         rets = [r for r in lib.returns_of(inner[0]) if r.value is not None]
-        if len(rets) == 1 and unparse(rets[0].value) == "func(*subvalues, **kwsubvals)":
+        fp = [a.arg for a in f.args.args]
+        cx = inner[0].args.args[0].arg
+        want = lib.role_text(None, f"{fp[0]}(*(valueInContext(a, {cx}) for a in {fp[1]}), **{{n: valueInContext(a, {cx}) for n, a in {fp[2]}.items()}})")
+        if len(rets) == 1 and lib.role_text(inner[0], rets[0].value) == want:
             ctx.ok(R, rets[0], "makeDelayedFunctionCall applies func to every evaluated positional and keyword argument")
         else:
             ctx.finding(R, f, "makeDelayedFunctionCall value", "makeDelayedFunctionCall.value does not return func(*subvalues, **kwsubvals)")
